@@ -94,6 +94,20 @@ def c07_cases(tier, rng):
         if c["reps"] and n <= 7:
             c["reps"] *= 6          # small inputs cost microseconds: a minority outcome of 1 run in 10 must not slip through
         yield from group(gid, c, [], reps=2 if tier == "quick" else 5)
+    # the same option given twice in one call (a decoy value first: another size map, other spacings, another fixed size): an
+    # option list is an assignment list, the later one counts - and BOTH size maps are the caller's data, re-read after the call
+    combos_d = grid(p1=K.P1S, p2=K.P2S, p4=K.P4_ALL, p5=["poly", "ortho", "straight"], size=["all", "some", "fixed+some", "fixed+all"], pat=["het", "odd"],
+                    virt=[0, 1], oo=[0])
+    small = [(n, e) for n, e, r in K.family("E33")] + random_inputs(rng, 300 if tier == "quick" else 3000, 3, 9, density=1.4)
+    for (n, e), cb in rotate(small, combos_d, 1, rng):
+        gid += 1
+        c = apply(n, e, cb)
+        c["after"] = 1
+        c["dup"] = 1
+        c["reps"] = 6
+        # (dup runs are compared with each other only: that the later option wins is how the code behaves, not something a
+        # listed property promises)
+        yield from group(gid, c, [], reps=2)
 
 
 # ---------------------------------------------------------------------------- C08
